@@ -600,38 +600,42 @@ theorem parseImpl_mono {p q : P} (hle : Le p q) (g : Grammar) (nd : Node) (s : L
   case forward e => exact enhanceImpl_mono hle _ _ _ h
   case skipTo e incl fo ig => exact skipToImpl_mono hle _ _ _ _ _ _ _ h
 
+/-- the parse step is monotone in the closure used for nested calls -/
+theorem parseStep_mono (g : Grammar) (s : List Char) {p q : P} (hle : Le p q) :
+    Le (parseStep g s p) (parseStep g s q) := by
+  intro e loc a c o h hn
+  subst h
+  unfold parseStep at hn ⊢
+  cases hg : g[e]? with
+  | none => simp [hg] at hn
+  | some nd =>
+    simp only [hg] at hn ⊢
+    have hp : (if (c && nd.callPre) = true then preParse p nd s loc else PreR.at loc).isHang = false := by
+      generalize hpr : (if (c && nd.callPre) = true then preParse p nd s loc else PreR.at loc) = pr at hn
+      cases pr with
+      | «at» l => rfl
+      | abort o => cases o <;> simp [PreR.isHang] at hn ⊢
+    have hpre : (if (c && nd.callPre) = true then preParse q nd s loc else PreR.at loc)
+        = (if (c && nd.callPre) = true then preParse p nd s loc else PreR.at loc) := by
+      by_cases hc : (c && nd.callPre) = true
+      · simp only [hc, if_true] at hp ⊢; exact preParse_mono hle _ _ _ hp
+      · simp [hc]
+    rw [hpre]
+    generalize (if (c && nd.callPre) = true then preParse p nd s loc else PreR.at loc) = pr at hn hp
+    cases pr with
+    | abort o => rfl
+    | «at» pre =>
+      simp only at hn ⊢
+      by_cases hi : parseImpl g p nd s pre a = .hang
+      · simp [hi] at hn
+      · rw [parseImpl_mono hle _ _ _ _ _ hi]
+
 /-- one more unit of fuel never changes a non-`hang` outcome -/
 theorem parse_step_mono (g : Grammar) (s : List Char) : ∀ f, Le (parse g s f) (parse g s (f + 1)) := by
   intro f
   induction f with
   | zero => intro e loc a c o h hn; simp [parse] at h; exact absurd h.symm hn
-  | succ f ih =>
-    intro e loc a c o h hn
-    subst h
-    unfold parse at hn ⊢
-    cases hg : g[e]? with
-    | none => simp [hg] at hn
-    | some nd =>
-      simp only [hg] at hn ⊢
-      have hp : (if (c && nd.callPre) = true then preParse (parse g s f) nd s loc else PreR.at loc).isHang = false := by
-        generalize hpr : (if (c && nd.callPre) = true then preParse (parse g s f) nd s loc else PreR.at loc) = pr at hn
-        cases pr with
-        | «at» l => rfl
-        | abort o => cases o <;> simp [PreR.isHang] at hn ⊢
-      have hpre : (if (c && nd.callPre) = true then preParse (parse g s (f + 1)) nd s loc else PreR.at loc)
-          = (if (c && nd.callPre) = true then preParse (parse g s f) nd s loc else PreR.at loc) := by
-        by_cases hc : (c && nd.callPre) = true
-        · simp only [hc, if_true] at hp ⊢; exact preParse_mono ih _ _ _ hp
-        · simp [hc]
-      rw [hpre]
-      generalize (if (c && nd.callPre) = true then preParse (parse g s f) nd s loc else PreR.at loc) = pr at hn hp
-      cases pr with
-      | abort o => rfl
-      | «at» pre =>
-        simp only at hn ⊢
-        by_cases hi : parseImpl g (parse g s f) nd s pre a = .hang
-        · simp [hi] at hn
-        · rw [parseImpl_mono ih _ _ _ _ _ hi]
+  | succ f ih => exact parseStep_mono g s ih
 
 theorem parse_mono (g : Grammar) (s : List Char) (f k : Nat) : Le (parse g s f) (parse g s (f + k)) := by
   induction k with
